@@ -287,3 +287,55 @@ Proof.
   destruct sps as [|sp sps']; [discriminate|]. injection H as <-.
   exists (length (sp :: sps')). split; [cbn [length]; lia|]. apply (all_intervals_length _ _ _ _ Hiv).
 Qed.
+
+(* ------------------------------------------------------------------ no silent drop (text after fix 8eb6c19) *)
+Lemma fetch_loop_length f tb : forall k nr l, fetch_loop f tb k nr = Ok l -> length l = k.
+Proof.
+  induction k as [|k IH]; intros nr l H; cbn [fetch_loop] in H.
+  - injection H as <-. reflexivity.
+  - apply rbind_ok in H. destruct H as (s & _ & H). apply rbind_ok in H. destruct H as (r & Hr & H).
+    injection H as <-. cbn [length]. f_equal. apply (IH _ _ Hr).
+Qed.
+
+Definition fetched (f : pfile) (tb : tables) (iv : N * N) : Prop :=
+  exists l, fetch_interval f tb (fst iv) (snd iv) = Ok l /\ lenN l = snd iv + 1 - fst iv.
+
+Lemma fetch_or_skip_fetched f tb iv l : fetch_or_skip f tb iv = Ok l -> fetched f tb iv.
+Proof.
+  intros H. exists l. split; [exact H|]. unfold fetch_or_skip, fetch_interval in H.
+  destruct (snd iv + 1 <? fst iv); [discriminate|]. apply fetch_loop_length in H. unfold lenN. lia.
+Qed.
+
+Lemma seg_track_fetched opt f tb T : forall ivs fes, seg_track opt f tb T ivs = Ok fes -> Forall (fetched f tb) ivs.
+Proof.
+  induction ivs as [|iv ivs IH]; intros fes H; [constructor|]. cbn [seg_track] in H.
+  apply rbind_ok in H. destruct H as (l & Hl & H). constructor; [apply (fetch_or_skip_fetched _ _ _ _ Hl)|].
+  destruct l as [|x l'].
+  - apply (IH _ H).
+  - apply rbind_ok in H. destruct H as (fe & _ & H). apply rbind_ok in H. destruct H as (r & Hr & _). apply (IH _ Hr).
+Qed.
+
+Lemma mux_gather_fetched f k : forall trs g, mux_gather f trs k = Ok g ->
+  Forall (fun t => exists iv, nth_error (st_ivs t) k = Some iv /\ fetched f (st_tb t) iv) trs.
+Proof.
+  induction trs as [|[[tb T] ivs] trs IH]; intros g H; [constructor|]. cbn [mux_gather] in H.
+  destruct (nth_error ivs k) as [iv|] eqn:En; [|discriminate].
+  apply rbind_ok in H. destruct H as (l & Hl & H). apply rbind_ok in H. destruct H as (r & Hr & _).
+  constructor; [|apply (IH _ Hr)]. exists iv. split; [exact En|apply (fetch_or_skip_fetched _ _ _ _ Hl)].
+Qed.
+
+Lemma mux_loop_fetched opt f ids trs : forall ks fes, mux_loop opt f ids trs ks = Ok fes ->
+  forall k, In k ks -> Forall (fun t => exists iv, nth_error (st_ivs t) k = Some iv /\ fetched f (st_tb t) iv) trs.
+Proof.
+  induction ks as [|k0 ks IH]; intros fes H k Hk; [contradiction|]. cbn [mux_loop] in H.
+  apply rbind_ok in H. destruct H as (g & Hg & H).
+  apply rbind_ok in H. destruct H as (fe & _ & H). apply rbind_ok in H. destruct H as (rest & Hr & _).
+  destruct Hk as [<-|Hk]; [apply (mux_gather_fetched _ _ _ _ Hg)|apply (IH _ Hr _ Hk)].
+Qed.
+
+Lemma mux_segments_fetched opt f trs nsegs fes : mux_segments opt f trs nsegs = Ok fes ->
+  forall k, (k < nsegs)%nat ->
+  Forall (fun t => exists iv, nth_error (st_ivs t) k = Some iv /\ fetched f (st_tb t) iv) trs.
+Proof.
+  intros H k Hk. apply (mux_loop_fetched _ _ _ _ _ _ H). apply in_seq. lia.
+Qed.
